@@ -94,7 +94,7 @@ def run(ctx, driver):
                 "fresh interpreters under 2 PYTHONHASHSEED values; distinct = distinct histories; non-trivial = history contains a call that writes an option or fails")
     rng = ctx.rng("hist")
     cases = [c["case"] for c in ctx.corpus() if "case" in c and "calls" in c["case"]]
-    for i in range(40 if quick else 400):
+    for i in range(ctx.n(40, 400)):
         hist = [gen_call(rng) for _ in range(rng.choice([1, 2, 3, 4]))]
         probe = gen_call(rng, kind=rng.choice(["plain", "plain", "options", "flags"]))
         cases.append({"calls": hist + [probe], "hashseeds": [1, 4242] if quick else [1, 4242, 77, 123456]})
